@@ -21,7 +21,7 @@ func codecPatterns() []string {
 	for _, p := range codecPkgs {
 		out = append(out, "./"+p)
 	}
-	return append(out, "./pkg/protocol/xprotocol", "./pkg/stream/xprotocol", "./pkg/protocol", "./pkg/stream/http", "./pkg/stream/http2", "./pkg/module/http2", "./pkg/proxy", "./pkg/network")
+	return append(out, "./pkg/protocol/xprotocol", "./pkg/stream/xprotocol", "./pkg/protocol", "./pkg/stream/http", "./pkg/stream/http2", "./pkg/protocol/http2", "./pkg/module/http2", "./pkg/proxy", "./pkg/network")
 }
 
 func init() {
@@ -361,6 +361,7 @@ func runC07(c *Ctx) {
 	br.runB3(matchers)
 	runC07Dispatch(c)
 	c07H2Dispatch(c, "C07.B2d")
+	c07H2PrefaceRetried(c, "C07.B2h")
 	runC07HTTPMatcher(c)
 	runC07H2(c, "C07.B1", "C07.B2h")
 	runC07Detection(c)
